@@ -1,7 +1,8 @@
 --------------------------------- MODULE CogGen ---------------------------------
 EXTENDS CogLayout, CaseIO
 CONSTANTS MaxDim
-BlockLists == {<<16>>, <<32>>, <<48>>, <<32, 16>>, <<48, 32>>, <<20>>, <<64, 32, 16>>}
+\* <<128, 16>>: a full-resolution tile far larger than the overview tiles (the full-resolution level has FEWER tiles than its overviews)
+BlockLists == {<<16>>, <<32>>, <<48>>, <<32, 16>>, <<48, 32>>, <<20>>, <<64, 32, 16>>, <<128, 16>>}
 \* write configurations: shapes incl. narrower than a tile and single row / column; the remaining options are a function of the case
 \* flat-and-wide / tall-and-thin images: the layout rule pads the short side by whole TILES (rows / columns of tiles with no source pixel at all)
 Shapes == {<<45, 70>>, <<1, 40>>, <<40, 1>>, <<10, 10>>, <<33, 17>>, <<64, 64>>, <<100, 37>>, <<16, 130>>, <<7, 90>>, <<16, 512>>, <<7, 300>>, <<300, 5>>}
